@@ -11,7 +11,8 @@ EXPLANATION = (
     "created before the `is_for_us` decision, and handle_response derives is_for_us from membership in the active "
     "searches or accept_unsolicited; (d) passed timers are popped every iteration and there is one rerun chain per "
     "search (shared with C12b / C19c); (e) the metrics report the sizes of exactly the six maps and of the timer heap. "
-    "Decides these structural clauses, not 'proportional' as a quantity.")
+    "Decides these structural clauses, not 'proportional' as a quantity."
+    " (f) The is_for_us scan is left early only on a positive membership test, and wake-up times are armed only for records the cache kept.")
 UNDECIDED = ["'proportional to what active searches need' as a quantity",
              "timer growth caused by repeated announcements of long-TTL records (two pushes per record per packet until they pass)"]
 
